@@ -35,8 +35,10 @@ RULE = ('C01-grammar scripts (1-3 equations, lags/leads <= 3, parameters, errors
         'pre-existing NaN/inf, all error modes, (c) solve() for every start/end choice incl. defaults (model side: the entry-point '
         'model SolveAll.solve_M incl. iter_periods), (d) the Fortran engine (gfortran-compiled) for solve_t at every t in both '
         'spellings and solve(): oracle on all, K on the calls that end before the compiled loop. '
-        'Histories: 3-6 solve_t calls with independent options on ONE instance, rejected calls in between, each call judged and '
-        'compared on its own. Syntax variants of the documented grammar: X[+1], X[ -1 ], { a }, < e >, keyword-prefixed names (is_open, Pin, not_X), '
+        'Histories: 3-6 steps over up to three instances of one class created at different moments — solve_t calls with '
+        'independent options (offsets in / just outside the span, both spellings of t), rejected calls, in-place edits of the '
+        'instance lists endogenous / check — each call judged and compared on its own, the other instances and the class lists '
+        'checked after every step. Syntax variants of the documented grammar: X[+1], X[ -1 ], { a }, < e >, keyword-prefixed names (is_open, Pin, not_X), '
         'comments, multi-line parenthesised statements, np.sqrt (oracle only: outside the translated fragment). model.lags / '
         'model.leads assigned by the user after construction, raised and lowered. thorough adds: '
         'exhaustive space of all programs of <= 2 equations with <= 2 right-hand terms over 4 names and offsets -1..1. '
@@ -332,20 +334,36 @@ def cases_for_program(rng, p, tier, heavy=True):
         if heavy:
             h = base_case(p, n, data, 'history', 0)
             h['steps'] = []
+            exo_names = [nm for nm in names if nm not in [e['lhs'][0] for e in p.eqs]]
+            lhs_names = [e['lhs'][0] for e in p.eqs]
+            multi = rng.random() < 0.6
             for _ in range(rng.choice([3, 4, 5, 6])):
+                on = rng.choice(['A', 'A', 'B']) if multi else 'A'
+                v = rng.random()
+                if multi and v < 0.25:
+                    # in-place edit of an instance list: an exogenous name becomes `endogenous` / `check` for THAT instance only
+                    lst = rng.choice(['endogenous', 'check'])
+                    if rng.random() < 0.7 and exo_names:
+                        h['steps'].append({'op': 'edit', 'on': on, 'list': lst, 'action': 'append', 'name': rng.choice(exo_names)})
+                    else:
+                        h['steps'].append({'op': 'edit', 'on': on, 'list': lst, 'action': 'remove', 'name': rng.choice(lhs_names)})
+                    continue
+                if multi and v < 0.32:
+                    h['steps'].append({'op': 'new', 'on': rng.choice(['B', 'C'])})
+                    continue
                 t = rng.randrange(-n, n)
                 pp = t if t >= 0 else t + n
                 so = dict(h['opts'], max_iter=rng.choice([1, 2, 3]), failures='ignore',
                           errors=rng.choice(['raise', 'raise', 'skip', 'ignore', 'replace']), catch_first_error=rng.random() < 0.6)
                 u = rng.random()
-                if u < 0.2:
-                    so['offset'] = rng.choice([-1, 1, -pp - 1, n - pp])
-                elif u < 0.3:
+                if u < 0.35:
+                    so['offset'] = rng.choice([-1, 1, -1, 1, -pp - 1, n - pp, -pp, n - 1 - pp])
+                elif u < 0.45:
                     so['min_iter'] = so['max_iter'] + 1
                     so['offset'] = rng.choice([0, -1, 1])
-                elif u < 0.4:
+                elif u < 0.5:
                     so['failures'] = 'raise'
-                h['steps'].append({'t': t, 'opts': so})
+                h['steps'].append({'op': 'solve_t', 'on': on, 't': t, 'opts': so})
             cases.append(h)
         # (c) solve() for every start / end choice
         choices = [None] + list(range(n))
@@ -470,6 +488,26 @@ def fixed_cases():
     for t in (2, -2, 3, -1, 1):
         out.append(base_case(r, 4, d4, 'solve_t', t, max_iter=2))
     out.append(base_case(r, 4, d4, 'solve', 0))
+    # histories over sibling instances: an in-place edit of one instance's lists must stay private to it, whether the sibling is
+    # created before or after the edit; offsets in and just outside the span, both spellings of t
+    dX = {'Y': data['Y'], 'X': [lib.fhex(x) for x in (1.0, 2.0, 3.0, 4.0)]}
+    for first_new in (True, False):
+        h = base_case(p, 4, dX, 'history', 0, max_iter=2, failures='ignore')
+        o1 = dict(h['opts'], offset=-1)
+        o2 = dict(h['opts'], offset=1)
+        o3 = dict(h['opts'], offset=-3)
+        h['steps'] = ([{'op': 'new', 'on': 'B'}] if first_new else []) + [
+            {'op': 'edit', 'on': 'A', 'list': 'endogenous', 'action': 'append', 'name': 'X'},
+            {'op': 'edit', 'on': 'A', 'list': 'check', 'action': 'append', 'name': 'X'},
+            {'op': 'solve_t', 'on': 'B', 't': 2, 'opts': o1},
+            {'op': 'solve_t', 'on': 'A', 't': -2, 'opts': o1},
+            {'op': 'solve_t', 'on': 'C', 't': 2, 'opts': o2},
+            {'op': 'solve_t', 'on': 'B', 't': -1, 'opts': o2},
+            {'op': 'solve_t', 'on': 'A', 't': 2, 'opts': o3},
+            {'op': 'edit', 'on': 'B', 'list': 'endogenous', 'action': 'remove', 'name': 'Y'},
+            {'op': 'solve_t', 'on': 'B', 't': 1, 'opts': o2},
+            {'op': 'solve_t', 'on': 'A', 't': 1, 'opts': o2}]
+        out.append(h)
     # instance attribute set by the user: lowered (kept finding) and raised (guard and default range follow it)
     for t in (0, -4, 1):
         c = base_case(p, 4, data, 'solve_t', t, max_iter=3)
@@ -590,42 +628,77 @@ def impl(case):
     n = case['n']
     span = ['p%d' % i for i in range(n)]
     Probe = em.make_probe(Model, names)
-    m = Probe(span)
-    for nm in names:
-        if nm in case['data']:
-            m.__dict__['_' + nm][:] = [lib.unhex(x) for x in case['data'][nm]]
-    m.__dict__['_status'][:] = case['status0']
-    m.__dict__['_iterations'][:] = case['iters0']
-    if case.get('inst_lags') is not None:
-        m.lags = case['inst_lags']
-    if case.get('inst_leads') is not None:
-        m.leads = case['inst_leads']
-    st = {'log': [], 'events': [], 'passes': []}
-    m.__dict__['_c04'] = st
-    before = em.snapshot(m, names)
-    em.install_recorders(m, names + ['status', 'iterations'], st['log'])
+
+    def new_instance():
+        mi = Probe(span)
+        for nm in names:
+            if nm in case['data']:
+                mi.__dict__['_' + nm][:] = [lib.unhex(x) for x in case['data'][nm]]
+        mi.__dict__['_status'][:] = case['status0']
+        mi.__dict__['_iterations'][:] = case['iters0']
+        if case.get('inst_lags') is not None:
+            mi.lags = case['inst_lags']
+        if case.get('inst_leads') is not None:
+            mi.leads = case['inst_leads']
+        sti = {'log': [], 'events': [], 'passes': []}
+        mi.__dict__['_c04'] = sti
+        em.install_recorders(mi, names + ['status', 'iterations'], sti['log'])
+        return mi, sti
     if case['entry'] == 'history':
-        # several calls on ONE instance (rejected ones in between): every call is observed and judged on its own
+        # several calls on instances of ONE class (created at different moments), rejected calls and in-place edits of the
+        # instance lists `endogenous` / `check` in between: every call is observed and judged on its own, and after every
+        # step all OTHER instances must be exactly as they were
+        insts = {}
         steps = []
         for step in case['steps']:
-            del st['log'][:]
-            st['events'] = []
-            st['passes'] = []
-            so = step['opts']
-            status0 = [str(x) for x in np.asarray(m.__dict__['_status'])]
-            iters0 = [int(x) for x in np.asarray(m.__dict__['_iterations'])]
-            before = em.snapshot(m, names)
-            try:
-                out = ['ret', [bool(m.solve_t(step['t'], min_iter=so['min_iter'], max_iter=so['max_iter'], tol=lib.unhex(so['tol']),
-                                              offset=so['offset'], failures=so['failures'], errors=so['errors'],
-                                              catch_first_error=so['catch_first_error']))]]
-            except Exception as e:
-                c = e.__cause__
-                out = ['raise', type(e).__name__, type(c).__name__ if c is not None else None]
-            ob = _collect(m, Model, names, prog, untranslatable, st, before, out)
-            ob['status0'], ob['iters0'] = status0, iters0
+            op = step.get('op', 'solve_t')
+            if op == 'new':
+                insts[step['on']] = new_instance()
+                steps.append({'op': 'new'})
+                continue
+            if step['on'] not in insts:
+                insts[step['on']] = new_instance()
+            m, st = insts[step['on']]
+            others0 = {k: (em.snapshot(mo, names), [str(x) for x in np.asarray(mo.__dict__['_status'])],
+                           [int(x) for x in np.asarray(mo.__dict__['_iterations'])], list(mo.endogenous), list(mo.check))
+                       for k, (mo, _) in insts.items() if k != step['on']}
+            if op == 'edit':
+                lst = getattr(m, step['list'])
+                try:
+                    if step['action'] == 'append':
+                        lst.append(step['name'])
+                    else:
+                        lst.remove(step['name'])
+                    ob = {'op': 'edit', 'ok': True}
+                except ValueError:
+                    ob = {'op': 'edit', 'ok': False}
+            else:
+                del st['log'][:]
+                st['events'] = []
+                st['passes'] = []
+                so = step['opts']
+                status0 = [str(x) for x in np.asarray(m.__dict__['_status'])]
+                iters0 = [int(x) for x in np.asarray(m.__dict__['_iterations'])]
+                before = em.snapshot(m, names)
+                try:
+                    out = ['ret', [bool(m.solve_t(step['t'], min_iter=so['min_iter'], max_iter=so['max_iter'], tol=lib.unhex(so['tol']),
+                                                  offset=so['offset'], failures=so['failures'], errors=so['errors'],
+                                                  catch_first_error=so['catch_first_error']))]]
+                except Exception as e:
+                    c = e.__cause__
+                    out = ['raise', type(e).__name__, type(c).__name__ if c is not None else None]
+                ob = _collect(m, Model, names, prog, untranslatable, st, before, out)
+                ob['status0'], ob['iters0'] = status0, iters0
+                ob['op'] = 'solve_t'
+            ob['endo_names'], ob['check_names'] = list(m.endogenous), list(m.check)
+            ob['others_changed'] = sorted(k for k, (mo, _) in insts.items() if k != step['on'] and others0[k] != (
+                em.snapshot(mo, names), [str(x) for x in np.asarray(mo.__dict__['_status'])],
+                [int(x) for x in np.asarray(mo.__dict__['_iterations'])], list(mo.endogenous), list(mo.check)))
+            ob['class_lists'] = [list(Model.ENDOGENOUS), list(Model.CHECK)]
             steps.append(ob)
         return {'history': steps, 'names': names}
+    m, st = new_instance()
+    before = em.snapshot(m, names)
     o = case['opts']
     kw = dict(min_iter=o['min_iter'], max_iter=o['max_iter'], tol=lib.unhex(o['tol']), offset=o['offset'],
               failures=o['failures'], errors=o['errors'], catch_first_error=o['catch_first_error'])
@@ -714,9 +787,45 @@ def history_steps(case, obs):
     """the calls of a history as (solve_t case, observation) pairs: the state the previous call left is the input"""
     out = []
     for step, so in zip(case['steps'], obs['history']):
+        if step.get('op', 'solve_t') != 'solve_t':
+            continue
         sc_ = dict(case, entry='solve_t', t=step['t'], opts=step['opts'], status0=so['status0'], iters0=so['iters0'])
         out.append((sc_, so))
     return out
+
+
+def history_list_oracle(case, obs):
+    """the instance lists `endogenous` / `check` are private to each instance: what they hold after every step is what the
+    class holds plus that instance's own edits; the class lists never change; no step touches another instance"""
+    fails = []
+    exp = {}
+    cls = None
+    for j, (step, so) in enumerate(zip(case['steps'], obs['history'])):
+        op = step.get('op', 'solve_t')
+        if op == 'new':
+            continue
+        if cls is None:
+            cls = so['class_lists']
+        on = step['on']
+        if on not in exp:
+            exp[on] = [list(cls[0]), list(cls[1])]
+        if op == 'edit' and so.get('ok'):
+            k = 0 if step['list'] == 'endogenous' else 1
+            if step['action'] == 'append':
+                exp[on][k].append(step['name'])
+            else:
+                exp[on][k].remove(step['name'])
+        if [so['endo_names'], so['check_names']] != exp[on]:
+            fails.append({'sig': 'C04|history|instance-lists-leak', 'what': 'step %d: instance %s holds endogenous/check = %s, expected %s (class lists plus its own edits)'
+                          % (j + 1, on, [so['endo_names'], so['check_names']], exp[on])})
+            break
+        if so['class_lists'] != cls:
+            fails.append({'sig': 'C04|history|class-lists-changed', 'what': 'step %d changed the class-level ENDOGENOUS/CHECK lists to %s' % (j + 1, so['class_lists'])})
+            break
+        if so['others_changed']:
+            fails.append({'sig': 'C04|history|other-instance-changed', 'what': 'step %d (%s on instance %s) changed instance(s) %s' % (j + 1, op, on, so['others_changed'])})
+            break
+    return fails
 
 
 def k_items(case, obs):
@@ -908,6 +1017,7 @@ def oracle(case, obs):
             bad('build|' + obs['skip'][6:], 'a valid C01-grammar script was not accepted: %s' % obs['skip'])
         return fails
     if case['entry'] == 'history':
+        fails += history_list_oracle(case, obs)
         seen = set()
         for j, (sc_, so_) in enumerate(history_steps(case, obs)):
             for f in oracle(sc_, so_):
@@ -947,8 +1057,10 @@ def oracle(case, obs):
     changed = {(i, q) for i in range(len(names)) for q in range(n) if B[i][q] != A[i][q]}
     st_changed = {q for q in range(n) if obs['status'][q] != case['status0'][q] or obs['iters'][q] != case['iters0'][q]}
     # never-assigned rows (exogenous variables, parameters, errors) never change, whatever the call
+    # (with an offset, rows the INSTANCE lists as endogenous are seeded at t: judged cell by cell further down)
+    seeded_rows = set(obs['endo']) if (case['entry'] != 'evaluate' and o['offset'] != 0) else set()
     for (i, q) in sorted(changed):
-        if i not in lhs:
+        if i not in lhs and i not in seeded_rows:
             bad('unassigned-row-changed', 'cell %s[%d] changed although no equation assigns %s' % (names[i], q, names[i]))
             break
     if case['entry'] == 'evaluate':
@@ -1132,7 +1244,9 @@ def bucket(case, obs):
     if obs.get('skip'):
         return 'skip/' + obs['skip'].split(':')[0]
     if case['entry'] == 'history':
-        return 'history/%d calls/%d raised' % (len(obs['history']), sum(1 for so_ in obs['history'] if so_['out'][0] == 'raise'))
+        calls = [so_ for so_ in obs['history'] if so_.get('op') == 'solve_t']
+        return 'history/%d calls/%d raised/%d edits' % (len(calls), sum(1 for so_ in calls if so_['out'][0] == 'raise'),
+                                                        sum(1 for so_ in obs['history'] if so_.get('op') == 'edit'))
     out = obs['out']
     r = out[1] if out[0] == 'raise' else 'ret'
     extra = ''
@@ -1154,7 +1268,8 @@ def shrink_candidates(case):
             if len(case['steps']) > 1:
                 c = copy.deepcopy(case)
                 del c['steps'][j]
-                yield c
+                if any(s_.get('op', 'solve_t') == 'solve_t' for s_ in c['steps']):
+                    yield c
         return
     if case['opts']['offset'] and case['entry'] != 'solve_t':
         c = copy.deepcopy(case)
